@@ -107,20 +107,19 @@ Proof.
   - apply compile_layout_accepts; assumption.
 Qed.
 
-(* Canonical words.  "forall w, 0 <= canon w < P" is FALSE of the code as written: a negative
-   multiple of P is mapped to P - 0 = P. *)
-Theorem C19_words_canonical_refuted : exists w, canon w = P.
-Proof. exact canon_refuted. Qed.
+(* Canonical words: every word of the class bytecode is the canonical representative in [0, P) of
+   the assembled (signed, unbounded) word.  (True of the code since /repo commit 5d200f2; before it
+   negative multiples of P were mapped to P itself -- the boundary found by this check.) *)
+Theorem C19_words_canonical : forall w, 0 <= canon w < P.
+Proof. exact canon_range. Qed.
 
-(* What holds: outside that case the word is canonical (and is the field representative of w);
-   inside it the result is exactly P.  Missing for the full statement: the case w < 0 /\ (P | w). *)
-Theorem C19_words_canonical_partial : forall w,
-  ~ (w < 0 /\ (P | w)) -> 0 <= canon w < P.
-Proof. exact canon_partial. Qed.
+Theorem C19_words_canonical_value : forall w, canon w = w mod P.
+Proof. exact canon_mod. Qed.
 
-Theorem C19_words_canonical_value : forall w,
-  (~ (w < 0 /\ (P | w)) -> canon w = w mod P) /\ (w < 0 -> (P | w) -> canon w = P).
-Proof. intros w. split; [apply canon_mod|apply canon_bad]. Qed.
+(* regression: the words that used to come out as P *)
+Example C19_words_canonical_regression :
+  canon (- P) = 0 /\ canon (- (2 * P)) = 0 /\ canon (- P - 1) = P - 1.
+Proof. exact canon_negative_multiples. Qed.
 
 (* non-vacuity: a two-function program with a const segment; entry point with two builtins *)
 Example C19_example :
@@ -163,6 +162,5 @@ Print Assumptions C19_entry_offset_first_instruction.
 Print Assumptions C19_class_accepted.
 Print Assumptions C19_hint_offsets.
 Print Assumptions C19_bytecode_limit.
-Print Assumptions C19_words_canonical_refuted.
-Print Assumptions C19_words_canonical_partial.
+Print Assumptions C19_words_canonical.
 Print Assumptions C19_words_canonical_value.
